@@ -522,14 +522,38 @@ pub fn bad_value(ty: &Ty, d: &mut D) -> Option<Syn> {
                 Syn::List(vec![])
             }
         }
-        Ty::Map(t) => match d.below(3) {
-            0 => wrong_kinds(d, &["list"]),
-            1 => Syn::List(vec![Node::Lit("\"lit\"".into(), LK::Str("lit".into()))]),
-            _ => {
-                let b = bad_value(t, d)?;
-                Syn::List(vec![Node::Item("kb".into(), b)])
+        Ty::Map(t) => {
+            let good = |t: &Ty| -> Syn {
+                match t {
+                    Ty::U8 | Ty::U16 | Ty::I64 => Syn::Lit("1".into(), LK::Int(1)),
+                    Ty::Bool => Syn::Lit("true".into(), LK::Bool(true)),
+                    _ => Syn::Lit("\"sx\"".into(), LK::Str("sx".into())),
+                }
+            };
+            match d.below(7) {
+                0 => wrong_kinds(d, &["list"]),
+                1 => Syn::List(vec![Node::Lit("\"lit\"".into(), LK::Str("lit".into()))]),
+                2 => {
+                    let b = bad_value(t, d)?;
+                    Syn::List(vec![Node::Item("kb".into(), b)])
+                }
+                // repeated keys: good then good, bad then good, good then bad, bad then bad, three times
+                3 => Syn::List(vec![Node::Item("kr".into(), good(t)), Node::Item("ko".into(), good(t)), Node::Item("kr".into(), good(t))]),
+                4 => {
+                    let b = bad_value(t, d)?;
+                    Syn::List(vec![Node::Item("kr".into(), b), Node::Item("kr".into(), good(t))])
+                }
+                5 => {
+                    let b = bad_value(t, d)?;
+                    Syn::List(vec![Node::Item("kr".into(), good(t)), Node::Item("kr".into(), b), Node::Item("kr".into(), good(t))])
+                }
+                _ => {
+                    let b = bad_value(t, d)?;
+                    let b2 = bad_value(t, d)?;
+                    Syn::List(vec![Node::Item("kr".into(), b), Node::Lit("7".into(), LK::Int(7)), Node::Item("kr".into(), b2)])
+                }
             }
-        },
+        }
         Ty::Recv(_) => wrong_kinds(d, &["list", "word", "str"]),
     })
 }
